@@ -32,7 +32,7 @@ def transfer_blocks(c):
     if bs != 512 and not any(k.lower() == "blksize" for k, _ in options):
         options.append(("blksize", str(bs)))
     nblocks = 2 * len(content) // bs + 2
-    tc = T.mk_case(content, c["chunks"], netascii=True, options=options, default_tmo=4096, kind=c.get("kind", ("noreg",)),
+    tc = T.mk_case(content, c["chunks"], netascii=True, options=options, default_tmo=255, max_tmo=255, kind=c.get("kind", ("noreg",)),
                    max_bs=c.get("max_bs", 65464),
                    events=[(1 + i, 0, T.ack(i & 0xFFFF)) for i in range(nblocks + 1)])
     log = T.run_impl(tc)
@@ -128,6 +128,10 @@ class C08(Check):
         # the packet builders as values: a packet kept for retransmission is not changed by later packets
         import c01_pkt
         c01_pkt.pkt_checks(tier, rng, report, "C08")
+
+    def accept_case(self, c):
+        import fake_net
+        return fake_net.can_drive(255, 255, 1, c.get("max_bs", 65464), 0)
 
     def impl(self, c):
         if c["via"] == "reader":
